@@ -13,7 +13,9 @@ REQUIRED = ["CifModel.C12_clean", "CifModel.C12_first_report_is_policy_free", "C
             "CifModel.C12_missing_key", "CifModel.C12_missing_key_word", "CifModel.C12_null_key", "CifModel.C12_unquoted_key",
             "CifModel.C12_null_key_word", "CifModel.C12_frame_unterminated", "CifModel.C12_eof_in_frame",
             "CifModel.C12_no_frame_term", "CifModel.C12_frame_nesting_depth", "CifModel.C12_frame_not_allowed",
-            "CifModel.C12_scanner_report_in_element_position", "CifModel.C12_null_loop", "CifModel.C12_invalid_itemname"]
+            "CifModel.C12_scanner_report_in_element_position", "CifModel.C12_null_loop", "CifModel.C12_invalid_itemname",
+            "CifModel.C12_invalid_framecode", "CifModel.C12_dup_framecode", "CifModel.C12_invalid_blockcode",
+            "CifModel.C12_dup_blockcode"]
 GEN = ["ErrCodes", "CharClass", "ParseConsts"]
 FAMILIES = ["defect"]
 TRUSTED_BASE = [
